@@ -701,7 +701,7 @@ func execStrSweep(c *FSCase, st *Stats) (*Violation, interface{}, bool) {
 	paths := append(append([]string{}, builtinPaths...), "Function", "eval", "Date")
 	seed, _ := strconv.Atoi(os.Getenv("VERIF_SEED"))
 	for n := 0; n <= len(runes); n++ {
-		if !c.Pairs && n != 0 && n != len(runes) && (n+seed)%4 != 0 {
+		if !c.Pairs && len(runes) > 16 && n != 0 && n != len(runes) && (n+seed)%4 != 0 {
 			continue // quick tier: a seed-selected quarter of the cut points (plus both ends)
 		}
 		prefix := string(runes[:n])
